@@ -110,8 +110,8 @@ def dyadic_int(vm, x):
 
 def rne_div(vm, num, den, name):
     """Int term q = round-half-even(num/den); num term >= 0, den python int > 0 (linear: q, r fresh)."""
-    q = vm.new_int(name + '_q', 0, None).e
-    r = vm.new_int(name + '_r', 0, den - 1).e
+    q = vm._fresh_int(name + '_q', 0, None).e
+    r = vm._fresh_int(name + '_r', 0, den - 1).e
     vm.add_pc(num == q * den + r)
     z3.DEFS[q.args[0]] = lambda model, num=num, den=den: z3.evaluate(num, model) // den
     z3.DEFS[r.args[0]] = lambda model, num=num, den=den: z3.evaluate(num, model) % den
@@ -177,7 +177,7 @@ def fixed_digits(vm, v, n):
         return [ord(c) for c in str(v).rjust(n, '0')]
     ds = []
     for i in range(n):
-        d = vm.new_int('dig', 0, 9).e
+        d = vm._fresh_int('dig', 0, 9).e
         z3.DEFS[d.args[0]] = lambda model, v=v, i=i, n=n: (z3.evaluate(v.e, model) // 10 ** (n - 1 - i)) % 10
         ds.append(d)
     tot = z3.IntVal(0)
@@ -316,6 +316,175 @@ def m_re_search(vm, args, kw, anchored=False):
     return None
 
 
+# ------------------------------------------------------------------------- UTF-8
+def utf8_encode(vm, s):
+    """str.encode() over symbolic code points: forks on the encoded width of each symbolic code point."""
+    from .sv import mk_bytes
+    out = []
+    for pos, x in enumerate(str_atoms(s)):
+        if isinstance(x, int):
+            out.extend(chr(x).encode('utf-8', 'strict'))   # raises UnicodeEncodeError on surrogates like python
+            continue
+        c = zt(x)
+        if vm.truth(mk_bool(c < 0x80)):
+            out.append(c)
+        elif vm.truth(mk_bool(c < 0x800)):
+            out.extend([0xC0 + c / 64, 0x80 + c % 64])
+        elif vm.truth(mk_bool(c < 0x10000)):
+            if vm.truth(mk_bool(z3.And(c >= 0xD800, c <= 0xDFFF))):
+                raise UnicodeEncodeError('utf-8', '\ud800', pos, pos + 1, 'surrogates not allowed')
+            out.extend([0xE0 + c / 4096, 0x80 + (c / 64) % 64, 0x80 + c % 64])
+        else:
+            out.extend([0xF0 + c / 262144, 0x80 + (c / 4096) % 64, 0x80 + (c / 64) % 64, 0x80 + c % 64])
+    return mk_bytes(out)
+
+
+def utf8_decode(vm, b):
+    """bytes.decode('utf-8', 'strict') over symbolic bytes (exact: overlongs, surrogates and > U+10FFFF rejected)."""
+    from .sv import atoms_of, Run
+    a = []
+    for x in atoms_of(b):
+        if isinstance(x, Run):
+            raise Unsupported('utf-8 decode of an opaque run')
+        if z3.is_expr(x) and x.sort == z3.BV:
+            x = z3.BV2Int(x)
+        a.append(x)
+    n = len(a)
+    out = []
+    i = 0
+
+    def in_range(x, lo, hi):
+        return atom_in_range(vm, x, lo, hi)
+
+    def bad(pos, why):
+        return UnicodeDecodeError('utf-8', b'?' * n, pos, min(n, pos + 1), why)
+    while i < n:
+        x = a[i]
+        if in_range(x, 0, 0x7F):
+            out.append(x)
+            i += 1
+            continue
+        if in_range(x, 0xC2, 0xDF):
+            need, lo2, hi2, base = 1, 0x80, 0xBF, 0xC0
+        elif in_range(x, 0xE0, 0xEF):
+            need, base = 2, 0xE0
+            if atom_eq(vm, x, 0xE0):
+                lo2, hi2 = 0xA0, 0xBF
+            elif atom_eq(vm, x, 0xED):
+                lo2, hi2 = 0x80, 0x9F
+            else:
+                lo2, hi2 = 0x80, 0xBF
+        elif in_range(x, 0xF0, 0xF4):
+            need, base = 3, 0xF0
+            if atom_eq(vm, x, 0xF0):
+                lo2, hi2 = 0x90, 0xBF
+            elif atom_eq(vm, x, 0xF4):
+                lo2, hi2 = 0x80, 0x8F
+            else:
+                lo2, hi2 = 0x80, 0xBF
+        else:
+            raise bad(i, 'invalid start byte')
+        if i + 1 >= n:
+            raise bad(i, 'unexpected end of data')
+        if not in_range(a[i + 1], lo2, hi2):
+            raise bad(i, 'invalid continuation byte')
+        cp = (zt(x) - base) if not isinstance(x, int) else x - base
+        cp = cp * 64 + (zt(a[i + 1]) - 0x80)
+        for j in range(2, need + 1):
+            if i + j >= n:
+                raise bad(i, 'unexpected end of data')
+            if not in_range(a[i + j], 0x80, 0xBF):
+                raise bad(i, 'invalid continuation byte')
+            cp = cp * 64 + (zt(a[i + j]) - 0x80)
+        out.append(cp)
+        i += need + 1
+    return mk_str(out)
+
+
+def sm_encode(vm, o, args, kw):
+    enc = (args[0] if args else kw.get('encoding', 'utf-8')).lower().replace('_', '-')
+    if isinstance(o, str):
+        return o.encode(*args, **kw)
+    if enc not in ('utf-8', 'utf8') or len(args) > 1 or 'errors' in kw:
+        raise Unsupported('encode symbolic str as ' + enc)
+    return utf8_encode(vm, o)
+
+
+def sm_split(vm, o, args, kw):
+    if isinstance(o, str) and not any(is_sym(x) for x in args):
+        return o.split(*args, **kw)
+    if not args or not isinstance(args[0], str) or len(args[0]) != 1 or len(args) > 1 or kw:
+        raise Unsupported('split of that kind on a symbolic str')
+    sep = ord(args[0])
+    parts, cur = [], []
+    for x in str_atoms(o):
+        if atom_eq(vm, x, sep):
+            parts.append(mk_str(cur))
+            cur = []
+        else:
+            cur.append(x)
+    parts.append(mk_str(cur))
+    return parts
+
+
+def sm_startswith(vm, o, args, kw):
+    pre = args[0]
+    if isinstance(pre, tuple):
+        return any(sm_startswith(vm, o, [p], kw) for p in pre)
+    pre = str_atoms(pre)
+    a = str_atoms(o)
+    if len(pre) > len(a):
+        return False
+    return all(atom_eq(vm, x, y) for x, y in zip(a, pre))
+
+
+def sm_lower_upper(upper):
+    def model(vm, o, args, kw):
+        out = []
+        for x in str_atoms(o):
+            if isinstance(x, int):
+                out.extend(ord(c) for c in (chr(x).upper() if upper else chr(x).lower()))
+            elif atom_in_range(vm, x, 0, 127):
+                lo, hi, d = (97, 122, -32) if upper else (65, 90, 32)
+                out.append(z3.If(z3.And(zt(x) >= lo, zt(x) <= hi), zt(x) + d, zt(x)))
+            else:
+                raise Unsupported('case mapping of a symbolic non-ASCII character')
+        return mk_str(out)
+    return model
+
+
+def format_braces(vm, fmt, args, kw):
+    """str.format for '{}', '{0}', '{name}' with empty / 'd' / 's' specs on symbolic ints and strs."""
+    import string
+    out = []
+    auto = 0
+    for lit, field, spec, conv in string.Formatter().parse(fmt):
+        out.extend(ord(c) for c in lit)
+        if field is None:
+            continue
+        if conv is not None or spec not in ('', 'd', 's'):
+            raise Unsupported('str.format spec %r on symbolic value' % (spec,))
+        if field == '':
+            v = args[auto]
+            auto += 1
+        elif field.isdigit():
+            v = args[int(field)]
+        elif field in kw:
+            v = kw[field]
+        else:
+            raise Unsupported('str.format field ' + field)
+        if isinstance(v, SInt):
+            from .models import decimal_atoms
+            out.extend(decimal_atoms(vm, v))
+        elif isinstance(v, (SStr, str)):
+            out.extend(str_atoms(v))
+        elif is_sym(v):
+            raise Unsupported('str.format of ' + type(v).__name__)
+        else:
+            out.extend(ord(c) for c in format(v, spec))
+    return mk_str(out)
+
+
 # ------------------------------------------------------------------------- str methods
 def sm_rstrip(vm, o, args, kw):
     chars = args[0] if args else None
@@ -345,9 +514,10 @@ def sm_ljust(vm, o, args, kw):
 def sm_format(vm, o, args, kw):
     if o == '{:.8f}' and len(args) == 1 and isinstance(args[0], (SFloat, float)):
         return format_fixed(vm, args[0], 8)
-    if not any(is_sym(a) for a in args):
+    from .sv import deep_sym
+    if not deep_sym(list(args)) and not deep_sym(kw):
         return o.format(*args, **kw)
-    raise Unsupported('str.format ' + repr(o))
+    return format_braces(vm, o, args, kw)
 
 
 def install(vm):
@@ -357,7 +527,12 @@ def install(vm):
     for t in (SStr, str):
         vm.method_models[(t, 'rstrip')] = sm_rstrip
         vm.method_models[(t, 'endswith')] = sm_endswith
+        vm.method_models[(t, 'startswith')] = sm_startswith
         vm.method_models[(t, 'ljust')] = sm_ljust
+        vm.method_models[(t, 'encode')] = sm_encode
+        vm.method_models[(t, 'split')] = sm_split
+        vm.method_models[(t, 'lower')] = sm_lower_upper(False)
+        vm.method_models[(t, 'upper')] = sm_lower_upper(True)
     vm.method_models[(str, 'format')] = sm_format
     vm.method_models[(SMatch, 'groups')] = lambda vm_, o, a, k: o.groups()
     vm.method_models[(SMatch, 'group')] = lambda vm_, o, a, k: o.group(*a)
